@@ -750,17 +750,23 @@ func (ex *Exec) jump(st *State, fr *Frame, to *ssa.BasicBlock) bool {
 type bencReg struct {
 	T types.Type
 	V Value
+	N *Term // length of the encoding this value stands for (nil: unknown)
 }
 
 // takeBenc removes and returns the first registered value whose type is the target's.
 func (st *State) takeBenc(t types.Type) (Value, bool) {
+	r, ok := st.takeBencReg(t)
+	return r.V, ok
+}
+
+func (st *State) takeBencReg(t types.Type) (bencReg, bool) {
 	for i, r := range st.bencNext {
 		if types.Identical(r.T, t) {
 			st.bencNext = append(append([]bencReg(nil), st.bencNext[:i]...), st.bencNext[i+1:]...)
-			return r.V, true
+			return r, true
 		}
 	}
-	return nil, false
+	return bencReg{}, false
 }
 
 // modelFuncs redirects library calls to executable Go models in package zz_verif_model.
@@ -2204,6 +2210,11 @@ func (ex *Exec) builtin(st *State, b *ssa.Builtin, args []Value, in *ssa.Call, p
 				if fits != nil {
 					ex.work = append(ex.work, grow)
 				}
+			}
+			if fits != nil && s.Obj == 0 {
+				// appending nothing to a nil slice
+				fits.top().env[in] = s
+				return fits == st
 			}
 			if fits != nil {
 				ffr := fits.top()
